@@ -16,6 +16,7 @@ from . import avops, common
 
 PROPERTY = "C07"
 LEVEL = "exploration"
+USES_THREADS = True  # the thread simulator has its own step budget; no wall-clock alarm
 RULE = (
     "each seed -> (basis, optional sequential pre-history, 2-4 threads x 1-4 queries, schedule policy); "
     "a run is an execution of that workload under one seeded schedule; non-trivial = at least one "
@@ -136,6 +137,8 @@ def gen_case(rng, tier):
     return {
         "basis": items, "form": common.gen_form(rng, items), "prehistory": pre, "threads": threads,
         "schedule": sched, "nmax": nmax, "ref_max": ref_max,
+        # > 25x the longest run observed on the unchanged tree in this tier
+        "max_steps": 1_500_000 if tier == "quick" else 6_000_000,
     }
 
 
@@ -254,7 +257,7 @@ def execute(case):
         if tdesc["handle"] == "none":
             out.probe("clear_cache_thread")
         sched.spawn(tid, make_fn(tdesc))
-    sched.run()
+    sched.run(wall_timeout=900)
 
     out.steps = sched.steps
     _STATE["last_steps"] = sched.steps
